@@ -145,13 +145,53 @@ def run_parse(ctx, case):
     inp.fail_plan = []
 
 
+class LineHook:
+    """runs `action` once, when the k-th statement of `func` starts (sys.monitoring LINE events local
+    to that code object) - where a signal handler could run"""
+
+    def __init__(self, func, k, action):
+        import sys
+        self.mon, self.code, self.k, self.action = sys.monitoring, func.__code__, k, action
+        self.n, self.fired, self.tool = 0, False, None
+
+    def install(self):
+        for tid in (4, 3, self.mon.PROFILER_ID):
+            try:
+                self.mon.use_tool_id(tid, "c18-linehook")
+                self.tool = tid
+                break
+            except ValueError:
+                continue
+        if self.tool is None:
+            return
+        self.mon.register_callback(self.tool, self.mon.events.LINE, self._on_line)
+        self.mon.set_local_events(self.tool, self.code, self.mon.events.LINE)
+
+    def _on_line(self, code, line):
+        if code is not self.code or self.fired:
+            return None
+        self.n += 1
+        if self.n == self.k:
+            self.fired = True
+            self.action()
+        return None
+
+    def uninstall(self):
+        if self.tool is not None:
+            self.mon.set_local_events(self.tool, self.code, 0)
+            self.mon.register_callback(self.tool, self.mon.events.LINE, None)
+            self.mon.free_tool_id(self.tool)
+            self.tool = None
+
+
 def gen_history(rng):
     rows, cols = rng.randint(2, 8), rng.randint(3, 6)
     steps = []
     for _ in range(rng.randint(1, 5)):
         steps.append({"h": rng.random(), "tall": rng.random() < .3, "len": rng.random(), "cursor": rng.random(), "d": rng.random(),
                       "nested": rng.random() < .3, "d2": rng.random(), "extra_query": rng.random() < .2,
-                      "d3": rng.random(), "failed_first": rng.random() < .15})
+                      "d3": rng.random(), "failed_first": rng.random() < .15,
+                      "nested_at_statement": rng.choice([0, 0, 2, 3, 4, 5, 6, 8])})
     case = {"kind": "history", "rows": rows, "cols": cols, "pre": rng.randint(0, rows - 1), "steps": steps}
     if rng.random() < .25:
         case["queries_before_first_render"] = [rng.random() for _ in range(rng.randint(1, 3))]
@@ -214,13 +254,20 @@ def run_history(ctx, case):
                     total = [d]
                     nested_ret = [0]
                     nested = st["nested"] and name == "d"
+                    line_hook = None
                     if nested:
                         def hook():
                             d2 = pick(st["d2"], -term.y, rows - 1 - term.y)
                             term.y += d2
                             total[0] += d2
                             nested_ret[0] += w.get_cursor_vertical_diff()
-                        inp.hook = hook
+                        if st.get("nested_at_statement"):
+                            # a SIGWINCH handler can run between any two statements: here at the k-th
+                            # statement of the bookkeeping that follows the terminal's reply
+                            line_hook = LineHook(type(w)._get_cursor_vertical_diff_once, st["nested_at_statement"], hook)
+                            line_hook.install()
+                        else:
+                            inp.hook = hook
                     if st.get("failed_first") and not nested:
                         # a keypress typed ahead of the report and no extra_bytes_callback: the
                         # query raises ValueError (as the property prescribes) and accounts for
@@ -242,7 +289,12 @@ def run_history(ctx, case):
                         ctx.count("failed_queries")
                         had_failed = True
                     try:
-                        ret = w.get_cursor_vertical_diff()
+                        try:
+                            ret = w.get_cursor_vertical_diff()
+                        finally:
+                            if line_hook is not None:
+                                line_hook.uninstall()
+                                ctx.count("nested_calls_between_statements", int(line_hook.fired))
                     except Exception as ex:  # noqa
                         ctx.judge(False, case, ("C18", "hist-raise", rows, top0, d, k),
                                   "C18:movement-not-conserved-after-failed-query" if had_failed else "C18:query-raises",
